@@ -374,4 +374,10 @@ def exchange (gzLen : Body → Nat) (chain : List Plugin) (req : Request) (ops :
   let r := serve gzLen chain req [] (scripted ops)
   ((Base.run { head := req.method == "HEAD" } r.1).view, r.2)
 
+/-- body operations of a response: writes and flushes -/
+def bodyOnly (ops : List Op) : Prop := ∀ o ∈ ops, (∃ c, o = .w c) ∨ o = .fl
+
+/-- header-map operations only -/
+def headerOnly (ops : List Op) : Prop := ∀ o ∈ ops, o.isHeaderOp = true
+
 end Helios.Http
